@@ -16,10 +16,12 @@ Drop(s, p) == SelectSeq(s, LAMBDA x : x # p)
 Init == /\ phase = "none" /\ multi = 0 /\ listed = <<>> /\ disk = {} /\ made = 0
         /\ last = [op |-> [op |-> "none"], ret |-> <<>>]
 Ret(o, r) == last' = [op |-> o, ret |-> r]
-Usable == phase = "inside" \/ (phase = "built" /\ multi = 0)
+\* a pool can be used without a with-block too. (Entering a multi-process pool that already lists files is left out: __enter__
+\* starts with a fresh shared list - whether files created before are then the pool's business is not something the property says.)
+Usable == phase = "inside" \/ phase = "built"
 
 New(o) == /\ phase = "none" /\ phase' = "built" /\ multi' = o.multi /\ UNCHANGED <<listed, disk, made>> /\ Ret(o, <<>>)
-Enter(o) == /\ phase = "built" /\ phase' = "inside" /\ UNCHANGED <<multi, listed, disk, made>> /\ Ret(o, <<>>)
+Enter(o) == /\ phase = "built" /\ (multi = 0 \/ listed = <<>>) /\ phase' = "inside" /\ UNCHANGED <<multi, listed, disk, made>> /\ Ret(o, <<>>)
 Create(o) == /\ Usable /\ UNCHANGED <<phase, multi>> /\ made' = made + 1
              /\ listed' = Append(listed, made + 1) /\ disk' = disk \cup {made + 1} /\ Ret(o, <<made + 1>>)
 \* a child process of a multi-process pool creates a file
